@@ -287,6 +287,22 @@ def tcheckRow : RowCarrier → List CqlTy → Option TcErr
   | .untyped, _ => none
   | .cols cs, ts => if cs.length ≠ ts.length then tcLeaf .wrongColumnCount else tcheckCols cs ts 0
 
+/-- `TypedRowIterator<R>` (`deserialize/result.rs:91-111`): it can only be obtained from `TypedRowIterator::new`,
+which is what `DeserializedMetadataAndRawRows::rows_iter`, `QueryRowsResult::rows` / `first_row` / `single_row`
+and the pager's typed stream go through. -/
+structure TypedIter where
+  rc : RowCarrier
+  specs : List CqlTy
+  remaining : Nat
+  deriving Repr, Inhabited
+
+/-- `TypedRowIterator::new(raw)`: `R::type_check(raw.specs())?` and only then the iterator — once per result,
+before any row is read, independently of how many rows there are and of what they contain. -/
+def typedIterNew (rc : RowCarrier) (specs : List CqlTy) (rows : Nat) : Except TcErr TypedIter :=
+  match tcheckRow rc specs with
+  | some e => .error e
+  | none => .ok ⟨rc, specs, rows⟩
+
 /-! ### values -/
 
 /-- A Rust value, self-describing (every node says which `impl SerializeValue` serializes it).  A leaf
